@@ -77,7 +77,7 @@ reg("C03", "c03", [("qp", "plain", 1)], "exploration",
     design_ref="4/C03")
 
 reg("C05", "c05", [("classify", "plain", 1)], "exploration",
-    rule=CONE_GEN + "only planted classes (strictly primal-dual feasible LPs and QPs with rank-deficient P allowed; "
+    rule=CONE_GEN + "[one feasible instance in five with equality constraints is homogeneous: h = 0 and b != 0 (standard-form LPs and their cone analogues), scaled by 1, 4 or 16.] only planted classes (strictly primal-dual feasible LPs and QPs with rank-deficient P allowed; "
          "strict Farkas certificate with a dual feasible point; strictly improving ray with a primal feasible point), "
          "kept only when cond([G;A]) resp. cond([P;G;A]) <= 1e3 and rank(A)=p (SVD); each instance is solved through two "
          "presentations (conelp vs lp/socp/sdp wrapper, coneqp vs qp, dense/sparse) with the default KKT solver and "
@@ -112,8 +112,8 @@ reg("C08", "c08", [("kernels", "plain", 1)], "exploration",
     level_note="Trusts numpy and vlib/ref_cone.py; the Python fallbacks are obtained by an AST transform of the tree's misc.py.",
     design_ref="4/C08")
 
-reg("C07", "c07", [("direct", "plain", 2), ("scaling", "plain", 1), ("insolve", "plain", 1)], "exploration",
-    rule="direct: Hypothesis draws (G, A, optional H=BB', Df for mnl 0-3) satisfying the rank assumptions (SVD), dense or "
+reg("C07", "c07", [("direct", "plain", 5), ("scaling", "plain", 3), ("insolve", "plain", 3), ("restore", "plain", 5)], "exploration",
+    rule="[restore part: cpl/cp problems with steep exponential constraints and a 'q' block; an ArithmeticError is injected into every kktsolver call in turn; when the retry starts from an iterate (x, z) the KKT solver has seen before it must receive the same scaling W. direct part: the strict upper triangle of H holds junk.] direct: Hypothesis draws (G, A, optional H=BB', Df for mnl 0-3) satisfying the rank assumptions (SVD), dense or "
          "sparse, and a history of 1-4 factor calls (each with its own W built from the definition, H, Df) with 1-2 "
          "right-hand sides each; every built-in solver applicable (ldl, ldl2, chol, chol2 for pure-'l', qr without H/mnl) "
          "runs the history on one factory; each solve is judged by the backward error of the documented block system "
@@ -134,8 +134,8 @@ reg("C07", "c07", [("direct", "plain", 2), ("scaling", "plain", 1), ("insolve", 
     level_note="Trusts numpy and vlib/ref_cone.py + vlib/ref_kkt.py (apply_W, packed KKT assembly).",
     design_ref="4/C07")
 
-reg("C06", "c06", [("presentations", "plain", 3), ("names", "plain", 1)], "exploration",
-    rule=CONE_GEN + "well-posed planted LPs (feasible / primal infeasible / unbounded) and QPs, cond <= 1e3; each is solved "
+reg("C06", "c06", [("presentations", "plain", 3), ("names", "plain", 1), ("patterns", "plain", 1)], "exploration",
+    rule=CONE_GEN + "[patterns part: pure-'l' LPs/QPs with 8-12 variables and a genuinely sparse G (3 entries per row plus bound rows), solved under all four dense/sparse storage mixes of G(P) and A with kktsolver None/'chol2'/'ldl' and compared with the all-dense 'ldl' presentation.] well-posed planted LPs (feasible / primal infeasible / unbounded) and QPs, cond <= 1e3; each is solved "
          "in the base presentation (conelp/coneqp, dense, default KKT solver) and under one generated transformation: "
          "sparse storage, another kktsolver name, the lp/socp/sdp/qp wrapper, operator form with a numpy KKT solver, "
          "valid start points, a scalar inequality re-encoded as a 1-dim 'q' or order-1 's' cone, row permutation in 'l', "
@@ -155,7 +155,7 @@ reg("C06", "c06", [("presentations", "plain", 3), ("names", "plain", 1)], "explo
     design_ref="4/C06")
 
 reg("C10", "c10", [("faults", "plain", 3), ("domain", "plain", 1)], "fault_enumeration",
-    rule="faults: Hypothesis draws an instance (conelp with/without start points, coneqp with/without initvals and the "
+    rule="[for cpl/cp 'unknown' exits also the 'primal slack'/'dual slack' fields are recomputed from the returned snl, sl, znl, zl.] faults: Hypothesis draws an instance (conelp with/without start points, coneqp with/without initvals and the "
          "no-inequality branch, cpl with a quadratic constraint, cp with a quadratic objective; all cone structures, "
          "refinement 0/1/default); a fault-free instrumented run (kktsolver='ldl', misc.kkt_ldl wrapped) records every "
          "factor() and solve() call; then EVERY call index is injected with ArithmeticError in turn (exhaustive per "
@@ -194,7 +194,7 @@ reg("C04", "c04", [("nonlinear", "plain", 1)], "exploration",
     design_ref="4/C04")
 
 reg("C09", "c09", [("histories", "plain", 1)], "exploration",
-    rule="Hypothesis draws a history of 2-8 steps over all ten entry points (conelp, coneqp, lp, qp, socp, sdp, cpl, cp, gp, "
+    rule="[every verdict must meet the effective feastol/abstol/reltol in the solver's own accuracy fields; for cp/cpl the start point returned by F() must be left untouched.] Hypothesis draws a history of 2-8 steps over all ten entry points (conelp, coneqp, lp, qp, socp, sdp, cpl, cp, gp, "
          "op.solve), each call on its own generated problem: set/delete a key of the global solvers.options, call with or "
          "without a per-call options= dictionary (incl. the empty dictionary), call with an invalid option value (global or "
          "per-call), run 2-4 calls concurrently in threads (switch interval 1e-6), loose-vs-tight tolerance pair. Every "
@@ -231,7 +231,7 @@ reg("C11", "c11", [("expressions", "plain", 1)], "exploration",
     design_ref="4/C11")
 
 reg("C12", "c12", [("problems", "plain", 1)], "exploration",
-    rule="Hypothesis draws 1-3 variables (lengths 1-3), a convex or affine objective tree of length 1 and 0-3 constraints "
+    rule="[kind 'simplex': x >= 0 and one equality sum(x) = total with a non-zero constant, no box: matrix form with h = 0, b != 0.] Hypothesis draws 1-3 variables (lengths 1-3), a convex or affine objective tree of length 1 and 0-3 constraints "
          "(convex tree <= rhs, concave tree >= rhs, affine tree == rhs, a constraint without variables; vector or scalar "
          "right-hand sides) from the C11 expression grammar (nested max/min/abs, sum of max, indexing, matrix coefficients, "
          "dense/sparse), with right-hand sides shifted so that a drawn point x0 is strictly feasible; variants: boxed "
